@@ -88,6 +88,7 @@ func buildWLWorld(lay nodeLayout, qs queueSetup, menu []wlItem, pick []int) (*wo
 	for i, mi := range pick {
 		wl := menu[mi].wl
 		wl.Name = fmt.Sprintf("w%d", i)
+		wl.Tag = menu[mi].tag
 		ps := make([]world.PodSpec, len(wl.Pods))
 		copy(ps, wl.Pods)
 		for pi := range ps {
